@@ -219,12 +219,24 @@ func ruleR8() *Rule {
 					}
 					sitesByFn[fn] = append(sitesByFn[fn], pollSite{call, iff, taken, other})
 					ins, ret := straightLineToReturn(taken)
+					var heldAtRet *errPathState
+					if ret == nil {
+						// `err = seg.ErrClosed; break` … `if err != nil { cleanup; return err }`: the way to
+						// the return goes through tests of the variable that holds the closed error
+						var seed ssa.Value
+						if errPoll {
+							seed = call
+						}
+						ins, ret, heldAtRet = errDirectedToReturn(taken, b, seed)
+					}
 					if ret == nil {
 						c.bad(key+"/returns", c.pos(cs), "the closed branch of the poll returns", "the branch taken when the channel is closed does not lead straight to a return (e.g. break/continue): the merge would go on and may report success", "call: "+describeInstr(c.p, cs))
 						continue
 					}
 					ev, _ := errorOfReturn(ret)
-					if ev == nil || !(isErrClosedValue(ev) || (errPoll && (sameValue(ev, call) || sameValue(resolveLoad(ev), call)))) {
+					if ev != nil && heldAtRet != nil && heldAtRet.holds(ev) {
+						// the variable that was given the closed error is what is returned
+					} else if ev == nil || !(isErrClosedValue(ev) || (errPoll && (sameValue(ev, call) || sameValue(resolveLoad(ev), call)))) {
 						c.bad(key+"/returns-closed-error", c.pos(ret), "the closed branch returns the closed error (seg.ErrClosed)", "the return on the cancelled branch does not return seg.ErrClosed: the caller would not run its cleanup / would report success for an incomplete file", "exit: "+describeInstr(c.p, ret))
 						continue
 					}
@@ -429,4 +441,42 @@ func callCarriesWriter(p *Program, cs ssa.CallInstruction) bool {
 		}
 	}
 	return false
+}
+
+// errDirectedToReturn follows the only way on from block b (entered from pred) given that the closed
+// error (a load of seg.ErrClosed met on the way, or seed) is non-nil: unconditional jumps, and branches
+// that test a variable holding it. Returns the instructions passed, the return reached (nil if the way
+// forks on something else) and what holds the error there.
+func errDirectedToReturn(b, pred *ssa.BasicBlock, seed ssa.Value) ([]ssa.Instruction, *ssa.Return, *errPathState) {
+	st := &errPathState{nn: map[ssa.Value]bool{}, cells: map[*ssa.Alloc]bool{}}
+	if seed != nil {
+		st.nn[seed] = true
+	}
+	var ins []ssa.Instruction
+	seen := map[*ssa.BasicBlock]int{}
+	for b != nil && seen[b] < 2 {
+		seen[b]++
+		if pred != nil {
+			st.enter(pred, b)
+		}
+		for _, in := range b.Instrs {
+			if v, ok := in.(ssa.Value); ok && isErrClosedValue(v) {
+				st.nn[v] = true
+			}
+			st.step(in)
+			switch x := in.(type) {
+			case *ssa.Return:
+				return ins, x, st
+			case *ssa.Jump, *ssa.If, *ssa.Phi, *ssa.DebugRef:
+			default:
+				ins = append(ins, in)
+			}
+		}
+		succs := st.branch(b)
+		if len(succs) != 1 {
+			return ins, nil, nil
+		}
+		pred, b = b, succs[0]
+	}
+	return ins, nil, nil
 }
